@@ -288,7 +288,13 @@ def _cfg_manager(tier):
                     continue
                 if cls == "DensityBasedSplitBudgetManager" and pre == "arbitrary":
                     top = 3     # nonlinear (u/t against a symbolic budget from a symbolic state): n >= 4 needs ~50 min per configuration
+                if cls == "RandomVariableUncertaintyBudgetManager" and pre == "arbitrary":
+                    top = min(top, 3)
+                if cls == "DensityBasedSplitBudgetManager" and pre == "fresh":
+                    top = min(top, 4)
                 for n in range(2, top + 1):
+                    if w == 100 and n == 5 and pre == "fresh":
+                        continue    # float chain of 0.99*u from a fresh object: boundary cases that do not replay (see C04)
                     out.append(dict(cls=cls, w=w, n=n, pre=pre))
     return out
 
